@@ -112,6 +112,13 @@ def plan(tier, seed):
     for c in combos[:n_combo]:
         c.update(family='main', cseed=rnd.randrange(1 << 30))
         cases.append(c)
+    # solver names that are NOT in the supported list but close to one that is (case, white space, method names)
+    for b in backends:
+        for solver in ['Euler', 'EULER', 'Heun', 'SciPy', 'Diffrax', 'euler ', 'rk45', 'RK45', '']:
+            if tier == 'quick' and rnd.random() < 0.4:
+                continue
+            cases.append({'kind': 'combo', 'backend': b, 'solver': solver, 'vec': False, 'delay': False, 'family': 'main',
+                          'cseed': rnd.randrange(1 << 30), 'near_miss': True})
     kinds = ['misspelt_edge_paths', 'misspelt_output_paths', 'misspelt_input_paths', 'misspelt_update_paths', 'removed_variable',
              'reserved_names', 'two_outputs', 'cyclic_node', 'missing_operator_value', 'population_param_missing_variable', 'edge_values_missing_edge']
     opened = open_risks(PID)
@@ -221,6 +228,8 @@ def combo_case(case, ctx, rnd, mech, res):
         if isinstance(e, (KeyboardInterrupt, SystemExit)):
             raise
         mech['unsupported_combos'] = 1
+        if case.get('near_miss'):
+            mech['near_miss_solver_names_refused'] = 1
         if case.get('shape'):
             mech['shaped_delay_requests_refused'] = 1
         res['sample']['raised'] = f'{type(e).__name__}: {str(e)[:120]}'
